@@ -640,3 +640,57 @@ mod tests {
         assert!(!number.matches("13a".bytes()));
     }
 }
+
+/// verif hook: const constructor of a DFA state (static table generation)
+#[cfg(feature = "verif-hooks")]
+pub const fn verif_dfa_state(index: usize) -> DFAState {
+    DFAState(index)
+}
+
+#[cfg(feature = "verif-hooks")]
+impl<T> DFA<T> {
+    /// verif hook: assemble DFA from a dense transition table
+    pub fn verif_from_parts(
+        start: DFAState,
+        lang_size: usize,
+        states: Box<[Option<DFAState>]>,
+        infos: Box<[DFAStateInfo<T>]>,
+    ) -> Self {
+        DFA {
+            start,
+            states,
+            infos,
+            lang_size,
+        }
+    }
+
+    /// verif hook: dump (start, lang_size, transitions, (accepting, terminal) per state)
+    pub fn verif_raw(&self) -> (usize, usize, Vec<Option<usize>>, Vec<(bool, bool)>) {
+        (
+            self.start.0,
+            self.lang_size,
+            self.states.iter().map(|s| s.map(|s| s.0)).collect(),
+            self.infos
+                .iter()
+                .map(|i| (i.is_accepting, i.is_terminal))
+                .collect(),
+        )
+    }
+
+    /// verif hook: index of the DFA state
+    pub fn verif_index(state: DFAState) -> usize {
+        state.0
+    }
+}
+
+#[cfg(feature = "verif-hooks")]
+impl<T> NFA<T> {
+    /// verif hook: NFA without any state (never compiled, cheap to drop)
+    pub fn verif_hollow() -> Self {
+        NFA {
+            start: NFAStateId(0),
+            stop: NFAStateId(0),
+            states: BTreeMap::new(),
+        }
+    }
+}
